@@ -67,7 +67,7 @@ def src_tok(data, chunks=None):
         return "c" + data.hex() if data else "-"
     toks = []
     for c in chunks:
-        if c in ("i", "f"):
+        if c in ("i", "f", "u", "r", "w"):
             toks.append(c)
         elif len(c):
             toks.append("c" + c.hex())
@@ -178,7 +178,12 @@ def ival_tok(iv):
 # G-chain: structured well-formed files
 # ------------------------------------------------------------------------------------------------
 
-NAMES = ["a", "b", "chr1", "seq0", "X"]
+def u8(s):
+    """a str whose latin-1 encoding is the UTF-8 encoding of s (all texts here are rendered with latin-1)"""
+    return s.encode("utf-8").decode("latin-1")
+
+
+NAMES = ["a", "b", "chr1", "seq0", "X", u8("chr\u03a9"), u8("\u00e9\u20ac")]
 
 
 def gen_blocks(rng, shape):
